@@ -32,6 +32,25 @@ def step_input(ctx, helper, kind, n, lay, tag=""):
         ctx.assumptions.append("mode / count_unique with missing values not dropped: inputs without NaN/NaT (as in C07)")
     return st
 
+def _as_float(c):
+    """Python float of a concrete float64 cell, else None"""
+    if not z3.is_expr(c) or not z3.is_fp(c): return None
+    b = z3.simplify(z3.fpToIEEEBV(c))
+    if not z3.is_bv_value(b): return None
+    import struct
+    return struct.unpack("<d", struct.pack("<Q", b.as_long()))[0]
+
+def equal_up_to_rounding(a, ka, b, kb):
+    """'the same values ... up to floating-point rounding': on concrete float results (real build) a relative tolerance of 1e-9,
+    and results that are both below 1e-290 in magnitude count as equal; symbolic results must be identical (they are the same
+    uninterpreted reducer on both sides)"""
+    if ka == "f" and kb == "f":
+        x, y = _as_float(a), _as_float(b)
+        if x is not None and y is not None and x == x and y == y and abs(x) != float("inf") and abs(y) != float("inf"):
+            m = max(abs(x), abs(y))
+            return T(x == y or abs(x - y) <= 1e-9 * m or m < 1e-290)
+    return summary_equal(a, ka, b, kb)
+
 def same_frames(on, off, label):
     if isinstance(on, Raised) or isinstance(off, Raised):
         return [(f"{label}: neither run raises (on: {on if isinstance(on, Raised) else 'ok'}, off: {off if isinstance(off, Raised) else 'ok'})", T(False))]
@@ -44,7 +63,7 @@ def same_frames(on, off, label):
         if len(a) != len(b): continue
         for j in range(len(a)):
             cl.append((f"{label}: {nm}[{j}] same value / missing position with Numba on and off",
-                       summary_equal(a.cells[j], kind_of(a), b.cells[j], kind_of(b))))
+                       equal_up_to_rounding(a.cells[j], kind_of(a), b.cells[j], kind_of(b))))
     return cl
 
 class OnOff(Harness):
